@@ -15,6 +15,9 @@ type MatchExpressionNode struct {
 	TypedNodeBase
 	Expression ExpressionNode // left hand side
 	Pattern    PatternNode    // right hand side
+	// the part of the expression's type that the pattern is guaranteed to match,
+	// set by the type checker, used for narrowing when the match fails
+	FullyCapturedType types.Type
 }
 
 func (n *MatchExpressionNode) splice(loc *position.Location, args *[]Node, unquote bool) Node {
